@@ -138,8 +138,13 @@ def check_case(acc, code, shape, conn, npixels, form, seed, detect_sources, Segm
     if not np.issubdtype(got.dtype, np.integer):
         acc.violation('dtype', 'segm.data', case, str(got.dtype), 'integer')
     fresh = SegmentationImage(got.copy())
-    for attr in ('labels', 'slices', 'areas'):
-        a, b = getattr(segm, attr), getattr(fresh, attr)
+    for attr in ('labels', 'slices', 'areas', 'nlabels', 'max_label'):
+        b = getattr(fresh, attr)
+        try:
+            a = getattr(segm, attr)
+        except Exception as e:  # reading an attribute of the returned object must not raise
+            acc.violation('cache-vs-fresh', f'{attr}:raises', case, repr(e), b)
+            continue
         same = (list(a) == list(b)) if attr in ('slices', 'bbox') else np.array_equal(a, b)
         if not same:
             acc.violation('cache-vs-fresh', attr, case, a, b)
@@ -206,8 +211,12 @@ def run_threshold(acc, seed):
         err2 = rng.uniform(1, 3, size=shape)
         mask = np.zeros(shape, bool)
         mask[1, 1] = True
-        for bkg, err, nsigma, msk in itertools.product((None, 9.5, bkg2), (None, 2.25, err2), (0.0, 1.5, 3.0), (None, mask)):
-            case = {'image': k, 'background': 'None' if bkg is None else ('map' if np.ndim(bkg) else bkg),
+        data64 = data
+        for dt, bkg, err, nsigma, msk in itertools.product(('f8', 'f4', 'i4', 'u1', '>f8'), (None, 9.5, bkg2), (None, 2.25, err2),
+                                                           (0.0, 1.5, 3.0), (None, mask)):
+            # the same image in another representation: integer types hold the rounded image
+            data = np.round(data64).astype(dt) if dt in ('i4', 'u1') else data64.astype(dt)
+            case = {'image': k, 'dtype': dt, 'background': 'None' if bkg is None else ('map' if np.ndim(bkg) else bkg),
                     'error': 'None' if err is None else ('map' if np.ndim(err) else err), 'nsigma': nsigma,
                     'mask': msk is not None}
             acc.case(nontrivial=True, sample=case if acc.evaluations % 17 == 0 else None)
@@ -217,7 +226,7 @@ def run_threshold(acc, seed):
                 acc.violation('threshold-raises', type(e).__name__, case, repr(e), None)
                 continue
             # independent sigma-clipped mean/std (3 sigma, 10 iterations: the documented default)
-            vals = data[~msk] if msk is not None else data.ravel()
+            vals = (data[~msk] if msk is not None else data.ravel()).astype(float)
             v = vals.copy()
             for _ in range(10):
                 m, s = np.mean(v), np.std(v)
@@ -228,8 +237,11 @@ def run_threshold(acc, seed):
             b = np.mean(v) if bkg is None else bkg
             e = np.std(v) if err is None else err
             want = np.broadcast_to(b + nsigma * np.asarray(e), data.shape)
-            if got.shape != data.shape or not np.allclose(got, want, rtol=1e-12, atol=1e-12):
-                acc.violation('threshold-formula', f'bkg={case["background"] if isinstance(case["background"], str) else "scalar"}'
+            # background/error given: pure arithmetic, exact whatever the image dtype; derived from a float32 image:
+            # sigma-clipped statistics accumulate in float32 (1e-5 of scale)
+            rtol = 1e-12 if (bkg is not None and err is not None) or dt not in ('f4',) else 1e-5
+            if got.shape != data.shape or not np.allclose(np.asarray(got, dtype=float), want, rtol=rtol, atol=1e-12):
+                acc.violation('threshold-formula', f'dtype={dt},bkg={case["background"] if isinstance(case["background"], str) else "scalar"}'
                               f',err={case["error"] if isinstance(case["error"], str) else "scalar"}', case,
                               np.asarray(got).ravel()[:4], np.asarray(want).ravel()[:4])
 
